@@ -462,6 +462,9 @@ def rule_T6(body, callees, arg):
         op = m.end() - 1
         cp = match_brace(mask, op, '(', ')')
         inner = mask[op + 1:cp].strip()
+        if body[op + 1:cp].rstrip().rstrip(',').rstrip().endswith(arg):
+            pos = op + 1        # already threaded by an earlier ghostarg line
+            continue
         ins = ('' if (not inner or inner.endswith(',')) else ', ') + arg
         body = body[:cp] + ins + body[cp:]
         pos = op + 1            # nested calls inside the argument list are handled too
